@@ -626,6 +626,42 @@ var utilityStmts = []string{
 	"SELECT if(a, b, c), multiIf(a, 1, b, 2, 3)", "SELECT quantile(0.5)(x), sumIf(a, b > 1) FROM t", "SELECT arrayMap(x -> x * 2, [1, 2, 3])",
 }
 
+// setOpChain: valid chains of set operations in every arrangement the parser has a separate path for (plain, leading
+// WITH, parenthesised first operand, parenthesised later operands, nested unions), keywords in upper case
+func (g *Gen) setOpChain() string {
+	ops := []string{"UNION ALL", "UNION DISTINCT", "UNION", "INTERSECT", "EXCEPT", "INTERSECT DISTINCT", "EXCEPT ALL", "UNION ALL", "INTERSECT", "EXCEPT"}
+	operand := func() string {
+		switch g.r.Intn(6) {
+		case 0:
+			return "(SELECT " + fmt.Sprint(g.r.Intn(9)) + ")"
+		case 1:
+			return "(SELECT 2 " + pick(g.r, ops) + " SELECT 3)"
+		case 2:
+			return "(SELECT 2 UNION DISTINCT SELECT 3 UNION ALL SELECT 4 UNION ALL SELECT 5)"
+		case 3:
+			return "SELECT a FROM t"
+		default:
+			return "SELECT " + fmt.Sprint(g.r.Intn(9))
+		}
+	}
+	var sb strings.Builder
+	switch g.r.Intn(5) {
+	case 0:
+		sb.WriteString("WITH 1 AS x SELECT x")
+	case 1:
+		sb.WriteString("(SELECT 1)")
+	case 2:
+		sb.WriteString("(SELECT 1 UNION ALL SELECT 2)")
+	default:
+		sb.WriteString("SELECT 1")
+	}
+	n := 1 + g.r.Intn(4)
+	for i := 0; i < n; i++ {
+		sb.WriteString(" " + pick(g.r, ops) + " " + operand())
+	}
+	return sb.String()
+}
+
 // statement generates one statement of any kind.
 func (g *Gen) statement(d int) string {
 	switch g.r.Intn(20) {
@@ -644,6 +680,8 @@ func (g *Gen) statement(d int) string {
 		return "CREATE VIEW v AS " + g.selectUnion(d, true)
 	case 12:
 		return g.aliasedShapes()
+	case 13:
+		return g.setOpChain()
 	case 9:
 		return "EXPLAIN " + pick(g.r, []string{"", "AST ", "SYNTAX ", "PLAN "}) + g.selectQuery(d, true)
 	case 10, 11:
